@@ -42,7 +42,12 @@ class Attribute(dict):
 
     def __str__(self) -> str:
         """Return a htmlized representation for attributes."""
-        return " ".join(f'{key}="{value}"' for key, value in self.items())
+        return " ".join(
+            # a valueless attribute has the value None; a double quote inside a
+            # (single-quoted) value can only be written as a reference
+            key if value is None else f'{key}="{value.replace(chr(34), "&quot;")}"'
+            for key, value in self.items()
+        )
 
 
 class Element(abc.MutableSequence):
